@@ -10,11 +10,11 @@ BODY = {
     "ansi": {"B1": "insert into t1 select * from s1",
              "B2": "insert into t2 select ';' as x, c from t1",
              "B3": 'create table t3 as select "a;b", c from t2',
-             "B4": "select c from t3"},
+             "B4": "insert into t4 select * from t2"},
     "tsql": {"B1": "insert into t1 select * from s1",
              "B2": "insert into t2 select ';' as x, c from t1",
              "B3": "select c into t3 from t2",
-             "B4": "select c from t3"},
+             "B4": "insert into t4 select * from t2"},
 }
 LEX = {"SEMI": ";", "LC": "-- note; more\n", "BC": "/* x; y */", "NL": "\n", "SP": " "}
 
